@@ -430,6 +430,36 @@ def check_queue_class(ctx, repo):
            f"_marked written outside {sorted(allowed)}: {sorted(set(writers) - allowed)}")
 
 
+def packet_fields_fresh(ctx, repo, rule):
+    fi = repo.method("GeckoAsyncSpa", "_async_on_packet")
+    # the callback reads handler.parms / handler.packet_content of a LONG-LIVED handler: both must be
+    # (re)assigned by every handled datagram, or a malformed packet is judged by the previous packet's
+    # identifiers and the previous content is re-queued (consumed twice)
+    def underlying(cname, prop):
+        pm = repo.method(cname, prop, required=False)
+        if pm is not None and pm.is_property:
+            rets = [ast.unparse(x.value) for x in ast.walk(pm.node) if isinstance(x, ast.Return) and x.value is not None]
+            if len(rets) == 1 and rets[0].startswith("self."):
+                return rets[0][5:]
+        return prop
+
+    hp = fi.node.args.args[1].arg
+    read = sorted({x.attr for x in ast.walk(fi.node) if isinstance(x, ast.Attribute) and isinstance(x.value, ast.Name) and x.value.id == hp})
+    pk = "GeckoPacketProtocolHandler"
+    hfi = repo.method(pk, "handle")
+    gh = cfg_of(hfi)
+    ctx.floor(rule, "handler attributes read by _async_on_packet", len(read), 2)
+    for a in read:
+        attr = underlying(pk, a)
+        asg = [x for x in gh.stmt_nodes() if isinstance(x.ast, ast.Assign) and any(
+            isinstance(tt, ast.Attribute) and tt.attr == attr and isinstance(tt.value, ast.Name) and tt.value.id == "self" and isinstance(tt.ctx, ast.Store)
+            for t in x.ast.targets for tt in ast.walk(t))]
+        ok = bool(asg) and gh.exit not in gh.reach_from(gh.entry, avoid=asg, labels_skip=("exc",))
+        ctx.ob(rule, f"{pk}.handle::assigns-{attr}-for-every-datagram", ok,
+               f"{pk}.handle can return without assigning self.{attr}: the long-lived packet consumer's callback would then see the value left by the PREVIOUS packet "
+               f"(a malformed or foreign packet passes the identifier check with stale identifiers and the old content is delivered again)", hfi.loc)
+
+
 def check(ctx):
     repo = Repo()
     ctx.rule("R1", "peek-check-pop atomic and matched: at each pop site the popped element is the one read from queue.head, no suspension point between read, can_handle test and pop; same values handed to the handler")
@@ -514,32 +544,7 @@ def check(ctx):
         a0 = ast.unparse(c.args[0]) if c.args else ""
         ctx.ob("R4", f"{fi.qual}::requeue-content", a0.endswith(".packet_content"),
                f"{fi.qual}: re-queues `{a0}` instead of the extracted packet content", loc(fi, c))
-    # the callback reads handler.parms / handler.packet_content of a LONG-LIVED handler: both must be
-    # (re)assigned by every handled datagram, or a malformed packet is judged by the previous packet's
-    # identifiers and the previous content is re-queued (consumed twice)
-    def underlying(cname, prop):
-        pm = repo.method(cname, prop, required=False)
-        if pm is not None and pm.is_property:
-            rets = [ast.unparse(x.value) for x in ast.walk(pm.node) if isinstance(x, ast.Return) and x.value is not None]
-            if len(rets) == 1 and rets[0].startswith("self."):
-                return rets[0][5:]
-        return prop
-
-    hp = fi.node.args.args[1].arg
-    read = sorted({x.attr for x in ast.walk(fi.node) if isinstance(x, ast.Attribute) and isinstance(x.value, ast.Name) and x.value.id == hp})
-    pk = "GeckoPacketProtocolHandler"
-    hfi = repo.method(pk, "handle")
-    gh = cfg_of(hfi)
-    ctx.floor("R4", "handler attributes read by _async_on_packet", len(read), 2)
-    for a in read:
-        attr = underlying(pk, a)
-        asg = [x for x in gh.stmt_nodes() if isinstance(x.ast, ast.Assign) and any(
-            isinstance(tt, ast.Attribute) and tt.attr == attr and isinstance(tt.value, ast.Name) and tt.value.id == "self" and isinstance(tt.ctx, ast.Store)
-            for t in x.ast.targets for tt in ast.walk(t))]
-        ok = bool(asg) and gh.exit not in gh.reach_from(gh.entry, avoid=asg, labels_skip=("exc",))
-        ctx.ob("R4", f"{pk}.handle::assigns-{attr}-for-every-datagram", ok,
-               f"{pk}.handle can return without assigning self.{attr}: the long-lived packet consumer's callback would then see the value left by the PREVIOUS packet "
-               f"(a malformed or foreign packet passes the identifier check with stale identifiers and the old content is delivered again)", hfi.loc)
+    packet_fields_fresh(ctx, repo, "R4")
     # any other caller of datagram_received inside the package?
     others = []
     for f2 in repo.all_functions():
